@@ -3,6 +3,7 @@ import PM.Step
 import PM.Transform
 import Proofs.StepToks
 import Proofs.Marks
+import Proofs.FlatInsertCore
 namespace PM
 
 /-! ### step maps of one and two ranges, read forwards and backwards -/
@@ -152,7 +153,8 @@ theorem insertAt_norm (S : Schema) (sl out : Slice) (pos : Nat) (frag : List Nod
     (hs : fnorm sl.content = true) (hf : fnorm frag = true)
     (h : sl.insertAt S pos frag = .ok (some out)) :
     fnorm out.content = true := by
-  unfold Slice.insertAt at h
+  rw [insertAt_of_le (insertAt_ok h).1] at h
+  unfold Slice.insertAtIn at h
   split at h
   · rename_i c hc
     simp at h; subst h
@@ -248,7 +250,8 @@ theorem insertAt_toks' (S : Schema) (sl ins : Slice) (pos : Nat) (frag : List No
     (hp : (pos : Int) ≤ sl.size)
     (h : sl.insertAt S pos frag = .ok (some ins)) :
     ins.toks = sl.toks.take pos ++ ftoks frag ++ sl.toks.drop pos := by
-  unfold Slice.insertAt at h
+  rw [insertAt_of_le (insertAt_ok h).1] at h
+  unfold Slice.insertAtIn at h
   split at h
   · rename_i c hc
     simp at h; subst h
